@@ -387,13 +387,13 @@ func init() {
 	props["C18"] = PropSpec{
 		ID: "C18",
 		Runs: []HarnessRun{
-			{Rel: "client", Dir: "client", Entry: "VH_C18_jar", Cases: tierCases([]int{1, 2, 12, 22}, []int{1, 2, 3, 12, 13, 22, 23, 32}), Reach: []string{"checked"}, MaxPaths: 400000},
+			{Rel: "client", Dir: "client", Entry: "VH_C18_jar", Cases: tierCases([]int{1, 2, 12, 22}, []int{1, 2, 12, 22, 32}), Reach: []string{"checked"}, MaxPaths: 400000},
 			{Rel: "client", Dir: "client", Entry: "VH_C18_assembly", Cases: seqCases(3), Reach: []string{"assembled"}, MaxPaths: 100000, Repeat: 60},
 			{Rel: "client", Dir: "client", Entry: "VH_C18_handoff", Cases: seqCases(2), Reach: []string{"B-done"}, MaxPaths: 300000, Repeat: 40},
 		},
 		Bounds: map[string]string{
 			"quick":    "cookie jar: histories of 1..2 operations (Set, or a response's Set-Cookie parsed for a request host/path) over 2 hosts x 2 names x paths {/, /a, /a/b, /ab} x {no expiry, expired, future expiry} with a symbolic value byte; after every step Get is checked for both hosts x 4 request paths",
-			"thorough": "histories up to 3 operations",
+			"thorough": "jar histories of 1-2 operations in all three modes (lookup after every operation, only at the end, shared URI object); 3-operation histories exceed 400 000 paths and are outside",
 		},
 		Assumptions: []string{
 			"expiry instants are far in the past / future (independent of the clock)",
